@@ -37,6 +37,10 @@ def features(b):
         k = e.get("ev", "") + ":" + str(e.get("stage", "")) + ("L" if e.get("late") else "") + ("T" if e.get("ttlb") else "")
         # the account context matters (multi-account interplay): which account is active, which is named
         k += "@" + active.get(e.get("w", ""), "") + (">" + e["src"] if e.get("src") else "") + (":" + e["tamper"] if e.get("tamper") else "")
+        if e.get("mok") is True:
+            k += "/ok"          # the model's verdict on the operation itself (not on a refresh it embeds)
+        elif e.get("mok") is False:
+            k += "/refused"
         if e.get("eff") == 0:
             k += "!noeffect"
         elif isinstance(e.get("eff"), int) and e["eff"] > 1:
@@ -49,6 +53,8 @@ def features(b):
             f.add(("ost", k, x))
         for x in e.get("tty") or []:
             f.add(("tty", k, x))
+        if isinstance(e.get("pend"), int):
+            f.add(("pend", k, e["pend"]))
         # how many OTHER slates are open (started, not cancelled) when this happens
         # (= slates with a log entry in THIS wallet: locked, received or invoiced there)
         sl = e.get("sl") or e.get("by") or ""
